@@ -2,7 +2,7 @@
 UNITS = {
     "health": dict(engine="verus", serves=["C20"]),
     "health_sites": dict(engine="verus", serves=["C20"]),
-    "authz": dict(engine="verus", serves=["C02", "C11", "C13"]),
+    "authz": dict(engine="verus", serves=["C02", "C11", "C13", "C01"]),
     "handler": dict(engine="verus", serves=["C01", "C03", "C05", "C10", "C11", "C14", "C15"]),
     "disk": dict(engine="verus", serves=["C19"]),
     "provision": dict(engine="verus", serves=["C16"]),
@@ -86,7 +86,7 @@ PROPERTIES["C02"] = dict(
 )
 
 PROPERTIES["C01"] = dict(
-    units=["handler", "authorizer", "conn"],
+    units=["handler", "authorizer", "conn", "authz"],
     technique='Verus contracts on the extracted real functions: capability precondition (may_relay) on the single upstream write primitive; refusal-status postcondition of the request handler',
     level_text="Deductive proof (Verus/Z3) for every request, caller, destination and rule set: hyper's http1::SendRequest::send_request as called by Client::send_request (E9 stub: the only upstream write primitive of the request path; Client::send_request, TcpConnectionContext::send_request and HttpConnectionContext::send_request above it are verified bodies) carries the precondition may_relay = no '..' in the path, connection attributed (original destination and caller claims present), policy lookup for the ORIGINAL destination succeeded and the declared decision table does not forbid; handle_new_http_request, handle_request_with_signature, HttpConnectionContext::send_request, convert_request, forward_response, log_connection_summary, extracted verbatim, are proved to establish it at every call, and handle_new_http_request is proved to answer 404/421/500/403 with an empty body whenever may_relay is false. get_access_control_rules/authorize are proved against the same table in unit authorizer; that the attribution a connection carries is its OWN record, consumed when used (so that `attributed` cannot mean a stale record of an earlier connection), is unit conn (C07's clauses; remove_audit's is labelled for C01 too).",
     level_note="Trusted: Verus/Z3/rustc; hyper calls the service once per parsed request and nothing else writes to the upstream socket; the accept-time connect made by TcpConnectionContext::new carries no payload; rules_reply (the key-keeper actor's answer) is uninterpreted so results hold for every policy; E9 stubs (StatusCode constants, body collection, derived Clone of claims/contexts, hyper body plumbing); is_allowed's contract is decided in unit authz, attribution in unit conn. A request to /provision is served locally. Not covered: hyper's own parsing; OS-thread races.",
